@@ -1,5 +1,6 @@
 import RedisGoModel.Driver.Util
 import RedisGoModel.Exec.Dispatch
+import RedisGoModel.Exec.Footprint
 import RedisGoModel.Conc.TraceCheck
 import RedisGoModel.Cluster.Snapshot
 /-! exec engine: `R` resets the model keyspace; `X <keys|*|-> <argv…> => <t0> <t1> <reply> <dump> fl=<…>` replays one command
@@ -129,6 +130,64 @@ def checkEvents (rest : List String) : Option String :=
         | none => some s!"a stripe is still held when the command returns: {ev}"
   | _ => none
 
+/-! ### lock footprint (C05 / C13): the stripes the Go executor locked = the stripes of the model footprint's keys -/
+
+/-- `kp=3,17,3`: stripe position of every argument after the command name (index-aligned with `argv[1:]`) -/
+def parseKp (s : String) : Option (List Nat) :=
+  let body := (s.drop 3).toString
+  if body == "-" then some [] else (body.splitOn ",").mapM (·.toNat?)
+
+/-- stripe of a footprint key: the key is an argument, its position was observed by the harness (`Locks.GetKeyPos`) -/
+def posOfKey (argv : List Bytes) (kp : List Nat) (k : Bytes) : Option Nat :=
+  match (argv.drop 1).findIdx? (· == k) with
+  | some i => kp[i]?
+  | none => none
+
+def dedupNat (l : List Nat) : List Nat := l.foldl (fun acc x => if acc.contains x then acc else acc ++ [x]) []
+def sameSet (a b : List Nat) : Bool := a.all b.contains && b.all a.contains
+
+def showPoses (l : List Nat) : String := ",".intercalate ((sortBy (· < ·) (dedupNat l)).map toString)
+
+/-- the lock events of one command against the plan (`Exec.lockPlan`): `none` = agrees.
+    `keys ks w`: the set of stripes locked (in either mode, `CheckTTL`'s blocks included) equals the set of stripes of `ks` — for the
+    commands of `Exec.lockedPrefix` (BLPOP/BRPOP stop at the first key that serves) of a prefix of `ks`; with `w` every locked
+    stripe was taken in write mode at some point.  `none`: nothing is locked.  `whole` (KEYS): not compared (the stripes are
+    those of the keys that exist, which the arguments do not name). -/
+def checkFootprint (plan : Footprint) (name : Bytes) (argv : List Bytes) (evs : List TraceCheck.Ev) (kp : List Nat) : Option String :=
+  let locked := dedupNat (evs.filterMap fun | .lock _ p => some p | _ => none)
+  let lockedW := dedupNat (evs.filterMap fun | .lock true p => some p | _ => none)
+  match plan with
+  | .whole => none
+  | .none => if locked.isEmpty then none else some s!"footprint: the model says this call locks nothing, the implementation locked stripes {showPoses locked}"
+  | .keys ks w =>
+    match ks.mapM (posOfKey argv kp) with
+    | none => some "footprint: a footprint key is not among the arguments whose stripe the harness reported (kp=)"
+    | some want =>
+      let keysOk :=
+        if lockedPrefix.any (fun n => ofStr n == name) then
+          (List.range (want.length + 1)).any fun n => n ≥ 1 && sameSet locked (dedupNat (want.take n))
+        else sameSet locked (dedupNat want)
+      if !keysOk then
+        some s!"footprint: model keys on stripes {showPoses want}, the implementation locked stripes {showPoses locked}"
+      else if w && !(locked.all lockedW.contains) then
+        some s!"footprint: write footprint, but stripes {showPoses (locked.filter fun p => !lockedW.contains p)} were only read-locked"
+      else none
+
+/-- the footprint clause of one exec line (only when the line carries both the event trace and the stripe table) -/
+def checkFootprintLine (argv : List Bytes) (t0 t1 : Int) (fl : Nat → Option UInt64) (rest : List String) : Option String :=
+  match rest.filter (·.startsWith "ev="), rest.filter (·.startsWith "kp=") with
+  | [ev], [kps] =>
+    match parseEvents ev, parseKp kps with
+    | some evs, some kp =>
+      let name := lower (argv.headD [])
+      let chk (now : Int) := checkFootprint (lockPlan { now := now, fl := fl } argv) name argv evs kp
+      match chk t0 with
+      | none => none
+      | some bad => if t1 != t0 && (chk t1).isNone then none else some bad
+    | _, none => some s!"malformed stripe table {kps}"
+    | none, _ => none      -- reported by checkEvents
+  | _, _ => none
+
 /-! ### keyspace snapshots (C08) -/
 
 def snapFirstDiff : List UInt8 → List UInt8 → Nat → Option Nat
@@ -240,6 +299,9 @@ def execLine (st : ExecSt) (fs : List String) : ExecSt × Option (Except String 
         if reply == "PANIC" || reply == "HANG" || reply == "NIL" then
           ({ st with dead := true }, some (.error s!"implementation {reply}"))
         else
+        match checkFootprintLine argv t0 t1 (parseFl fl) rest with
+        | some bad => ({ st with dead := true }, some (.error bad))
+        | none =>
         match unhex reply with
         | none => (st, some (.error "bad reply hex"))
         | some rb =>
